@@ -27,6 +27,9 @@ import (
 
 var verifDir = "/verif"
 
+// outDir receives evidence/ and replays/ (verifDir unless this is a sensitivity run)
+var outDir = ""
+
 type line struct {
 	T        string             `json:"t"`
 	Case     string             `json:"case,omitempty"`
@@ -324,6 +327,15 @@ func main() {
 	if d := os.Getenv("VERIF_DIR"); d != "" {
 		verifDir = d
 	}
+	outDir = verifDir
+	// sensitivity runs against a scratch copy must not overwrite the
+	// evidence / replays of the real tree
+	if rd := os.Getenv("VERIF_REPO_DIR"); rd != "" && rd != "/repo" {
+		outDir = os.Getenv("VERIF_OUT_DIR")
+		if outDir == "" {
+			outDir = filepath.Join(os.TempDir(), "vcheck-alt-out")
+		}
+	}
 	prop := os.Args[1]
 	spec, ok := props[prop]
 	if !ok {
@@ -595,9 +607,9 @@ func main() {
 			cov["samples"] = []interface{}{"(no sample recorded)"}
 		}
 		ev["coverage"] = cov
-		os.MkdirAll(filepath.Join(verifDir, "evidence"), 0755)
+		os.MkdirAll(filepath.Join(outDir, "evidence"), 0755)
 		b, _ := json.MarshalIndent(ev, "", " ")
-		os.WriteFile(filepath.Join(verifDir, "evidence", prop+".json"), append(b, '\n'), 0644)
+		os.WriteFile(filepath.Join(outDir, "evidence", prop+".json"), append(b, '\n'), 0644)
 	}
 
 	for _, id := range keysOf(knownHit) {
@@ -619,7 +631,7 @@ func main() {
 			}
 			b, _ := json.MarshalIndent(v, "", " ")
 			h := sha256.Sum256(b)
-			rdir := filepath.Join(verifDir, "replays", prop)
+			rdir := filepath.Join(outDir, "replays", prop)
 			os.MkdirAll(rdir, 0755)
 			rp := filepath.Join(rdir, fmt.Sprintf("%x.json", h[:6]))
 			os.WriteFile(rp, append(b, '\n'), 0644)
